@@ -349,7 +349,12 @@ impl<'a> JsGen<'a> {
         if self.o.strict && self.allow_return && simple && self.rng.chance(1, 4) {
             self.line("'use strict';");
         }
-        self.line("let s = 'x', t = \"y\", o = { p: a, q: { r: b } }, arr = [a, b];");
+        if self.o.unicode && self.rng.chance(1, 2) {
+            // non-ASCII identifiers end up in the `names` of the rewrite map
+            self.line("let s = 'x', t = \"y\", o = { p: a, q: { r: b } }, arr = [a, b], a\u{f1}adir\u{4f60}\u{597d} = a + b, caf\u{e9} = a\u{f1}adir\u{4f60}\u{597d} + t;");
+        } else {
+            self.line("let s = 'x', t = \"y\", o = { p: a, q: { r: b } }, arr = [a, b];");
+        }
         self.indent -= 1;
         self.block(d);
         self.in_fn -= 1;
@@ -722,7 +727,12 @@ impl<'a> JsGen<'a> {
         } else {
             self.line("const dep = require('./dep.js');");
         }
-        self.line("function fn0(x) { return x; }");
+        // the first block of the file sometimes holds an instrumented operation that needs temporaries
+        match self.rng.below(4) {
+            0 if self.o.ops => self.line("function fn0(x) { return String(x) + x.toString(); }"),
+            1 if self.o.ops => self.line("function fn0(x) { const y = `${String(x)}`; return y; }"),
+            _ => self.line("function fn0(x) { return x; }"),
+        }
         self.line("function tag(s, ...v) { return s.raw.join(''); }");
         self.line("class Base { constructor() { this.v = 'base'; } }");
         let d = 2;
@@ -775,6 +785,16 @@ impl<'a> JsGen<'a> {
         }
         (out, self.ops_emitted)
     }
+}
+
+/// many distinct long string literals (the literal report has to carry all of them)
+pub fn gen_many_literals(rng: &mut Rng, n: usize) -> String {
+    let mut s = String::from("function lits(a, b) {\n  const all = [\n");
+    for i in 0..n {
+        s.push_str(&format!("    'literal number {:04} with salt {:06}',\n", i, rng.below(1_000_000)));
+    }
+    s.push_str("  ];\n  return all.join(a + b);\n}\nmodule.exports = { lits };\n");
+    s
 }
 
 /// a program that contains nothing the rewriter instruments
@@ -851,6 +871,10 @@ pub fn mutate_tokens(rng: &mut Rng, src: &str, n: usize) -> String {
 /// declarations, `this` forms, destructuring defaults, unary zoo, labelled continue, tagged member
 /// templates, comments between operands, inner directives, redeclarations, import.meta, HTML comments...
 pub const ZOO: &[&str] = &[
+    r####"function z41(a, b) { return 'abc'?.substring(1) + null?.trim() + /x/g?.replace(a, 'y') + (1)?.toString().concat(a) + (void 0)?.trim(); }"####,
+    r####"function z42(a, b) { return `t`?.trim() + []?.concat(a) + ({})?.trim?.() + 'lit'?.concat?.(a, b) + true?.toString?.().trim(); }"####,
+    r####"function z43(a, b) { return 'lit'.concat(a).trim() + ''.concat(...b) + "x".substring(1) + 'y'.replace('y', a) + 'z'.padEnd(3, a).repeat(2); }"####,
+    r####"function z44(a, b) { return null?.[a]?.trim() + undefined?.concat(b) + this?.v?.trim() + super_ok?.(a)?.trim() + (a ?? b)?.trim(); }"####,
     r####"function z(a, b) { return super_ok(a) + b; }"####,
     r####"class Z1 extends Base { m(a, b) { return super.toString().trim() + a; } }"####,
     r####"function z2(a, b) { return a?.[b]?.trim() + a?.b.c?.(b) + (a?.b)(b); }"####,
